@@ -1,11 +1,12 @@
-(* C13: the wrapper laws that hold of the model by computation (Q3).
+(* C13: the wrapper laws that hold of the model (Q3).
    (a) typed nesting is flattening, (b) a ConcatSource with one child is its child,
-   (c) a ReplaceSource without replacements, (d) a CachedSource on a cold cache. *)
+   (c) a ReplaceSource without replacements, (d) a CachedSource on a cold cache,
+   (e) boxed nesting of ConcatSources, (f) empty neighbours in a ConcatSource. *)
 From RS Require Import Base.Prelude Base.Text Rope.RopeModel Codec.Vlq Codec.CodecSpec
   Stream.Types Stream.Leaves Stream.Concat Stream.Replace Stream.Combined Stream.Tree
   Sem.Attr Checkers.ChkTree
   Proofs.StreamText Proofs.StreamLeaves Proofs.StreamConcat Proofs.StreamTree
-  Proofs.RStreamText.
+  Proofs.RStreamText Proofs.WfStream Proofs.AttrCodec Proofs.LawConcatAttr.
 Require Import Lia List.
 
 Local Open Scope N_scope.
@@ -283,9 +284,526 @@ Example cached_cold_map_counterexample :
   fst (map_of [] (SCached 7 a) true) <> fst (map_of [] a true).
 Proof. split; [reflexivity|]. vm_compute. discriminate. Qed.
 
+(* ------------------------------------------------------------------ *)
+(* (c) no replacements: the stream                                     *)
+(* ------------------------------------------------------------------ *)
+Lemma replace_chunk_nil_eq st chunk m : rs_rest st = [] -> rs_rend st = None ->
+  replace_chunk st chunk m =
+  (set_pos st (rs_pos st + len chunk),
+   if 0 <? len chunk then
+     [EChunk (Some chunk)
+        (mkMapping (wrap32z (Z.of_N (g_line m) + rs_loff st))
+           (out_col st (Z.of_N (g_line m) + rs_loff st) (g_col m))
+           (match m_orig m with Some o => Some (map_name st o) | None => None end))]
+   else []).
+Proof.
+  intros H1 H2. rewrite RStreamText.replace_chunk_eq. unfold chunk_entry. rewrite H2. cbn zeta. cbn iota.
+  rewrite H1, repl_loop_nil. cbn iota. cbn [v_cpos v_gc v_orig fst snd app]. reflexivity.
+Qed.
+
+(* ReplaceSource re-announces names through its own tables: rs_name_idx translates the inner
+   name table into rs_names, string by string; sources pass through unchanged *)
+Record pinv (st : rstate) (cn : list text) : Prop := mkPinv {
+  pi_rest : rs_rest st = [];
+  pi_rend : rs_rend st = None;
+  pi_name : ren_ok (rs_name_idx st) cn (rs_names st) }.
+
+Lemma replace_event_nil_attr st e evs cs cn :
+  pinv st cn -> dense (e :: evs) (len cs) (len cn) = true ->
+  pinv (fst (replace_event st e)) (snd (tabs [e] cs cn)) /\
+  dense evs (len (fst (tabs [e] cs cn))) (len (snd (tabs [e] cs cn))) = true /\
+  tabs (snd (replace_event st e)) cs (rs_names st)
+  = (fst (tabs [e] cs cn), rs_names (fst (replace_event st e))) /\
+  dense (snd (replace_event st e)) (len cs) (len (rs_names st)) = true /\
+  filter live (ta (rsegs_of_events (snd (replace_event st e)) cs (rs_names st)))
+  = filter live (ta (rsegs_of_events [e] cs cn)).
+Proof.
+  intros [H1 H2 Hn] Hd. destruct e as [[chunk|] m|i name content|i name].
+  - (* text chunk *)
+    cbn [replace_event]. rewrite (replace_chunk_nil_eq st chunk m H1 H2). cbn [fst snd tabs].
+    cbn [dense] in Hd. apply andb_true_iff in Hd. destruct Hd as [Hm Hd].
+    split; [constructor; cbn [set_pos rs_rest rs_rend rs_name_idx rs_names]; assumption|].
+    split; [exact Hd|]. cbn [set_pos rs_names].
+    destruct chunk as [|b t].
+    + change (0 <? len (@nil N)) with false. cbn iota. repeat split; reflexivity.
+    + replace (0 <? len (b :: t)) with true by (symmetry; apply N.ltb_lt; rewrite slen_cons; lia).
+      cbn iota. destruct (m_orig m) as [o|] eqn:Eo.
+      * apply andb_true_iff in Hm. destruct Hm as [Ho Hna].
+        destruct (o_name o) as [k|] eqn:Ek.
+        -- apply N.ltb_lt in Hna. destruct (snth_lt_some cn k Hna) as [y Hy].
+           destruct (Hn _ _ Hy) as [gk [K1 K2]].
+           pose proof (snth_some_lt _ _ _ K2) as Kl. apply N.ltb_lt in Kl.
+           split; [reflexivity|]. split.
+           { cbn [dense m_orig map_name o_src o_name]. rewrite Ek, K1, Ho, Kl. reflexivity. }
+           f_equal. unfold ta. cbn [rsegs_of_events map fst snd m_orig map_name o_src o_line o_col o_name].
+           rewrite Eo. cbn [o_src o_name]. rewrite Ek, K1, K2, Hy. reflexivity.
+        -- split; [reflexivity|]. split.
+           { cbn [dense m_orig map_name o_src o_name]. rewrite Ek, Ho. reflexivity. }
+           f_equal. unfold ta. cbn [rsegs_of_events map fst snd m_orig map_name o_src o_line o_col o_name].
+           rewrite Eo. cbn [o_src o_name]. rewrite Ek. reflexivity.
+      * split; [reflexivity|]. split; [reflexivity|].
+        f_equal. unfold ta. cbn [rsegs_of_events map fst snd m_orig]. rewrite Eo. reflexivity.
+  - (* chunk without text *)
+    cbn [replace_event fst snd tabs]. cbn [dense] in Hd. apply andb_true_iff in Hd. destruct Hd as [_ Hd].
+    split; [constructor; assumption|]. split; [exact Hd|]. repeat split; reflexivity.
+  - (* source *)
+    cbn [dense] in Hd. apply andb_true_iff in Hd. destruct Hd as [Hi Hd]. apply N.eqb_eq in Hi. subst i.
+    cbn [replace_event fst snd tabs rs_names]. rewrite lm_insert_next, slen_snoc.
+    split; [constructor; cbn [rs_rest rs_rend rs_name_idx rs_names]; assumption|].
+    split; [exact Hd|]. split; [reflexivity|]. split; [|reflexivity].
+    cbn [dense]. rewrite N.eqb_refl. reflexivity.
+  - (* name *)
+    cbn [dense] in Hd. apply andb_true_iff in Hd. destruct Hd as [Hi Hd]. apply N.eqb_eq in Hi. subst i.
+    cbn [tabs fst snd]. rewrite lm_insert_next, slen_snoc.
+    cbn [replace_event]. destruct (find_text (rs_names st) name 0) as [g|] eqn:E; cbn [fst snd rs_names].
+    + split.
+      { constructor; cbn [rs_rest rs_rend rs_name_idx rs_names]; [exact H1|exact H2|].
+        apply ren_ok_insert; [exact Hn|apply find_text_nth0; exact E]. }
+      split; [exact Hd|]. repeat split; reflexivity.
+    + split.
+      { constructor; cbn [rs_rest rs_rend rs_name_idx rs_names]; [exact H1|exact H2|].
+        apply ren_ok_insert; [apply ren_ok_grow; exact Hn|apply snth_len_snoc]. }
+      split; [exact Hd|]. split; [cbn [tabs]; rewrite lm_insert_next; reflexivity|].
+      split; [|reflexivity]. cbn [dense]. rewrite N.eqb_refl. reflexivity.
+Qed.
+
+Lemma tabs_cons e evs s n : tabs (e :: evs) s n = tabs evs (fst (tabs [e] s n)) (snd (tabs [e] s n)).
+Proof. apply (tabs_app [e] evs). Qed.
+
+Lemma rsegs_cons e evs s n :
+  rsegs_of_events (e :: evs) s n =
+  rsegs_of_events [e] s n ++ rsegs_of_events evs (fst (tabs [e] s n)) (snd (tabs [e] s n)).
+Proof. apply (rsegs_app [e] evs). Qed.
+
+Lemma replace_events_nil_attr evs : forall st cs cn,
+  pinv st cn -> dense evs (len cs) (len cn) = true ->
+  rs_rest (fst (replace_events st evs)) = [] /\
+  tabs (snd (replace_events st evs)) cs (rs_names st)
+  = (fst (tabs evs cs cn), rs_names (fst (replace_events st evs))) /\
+  dense (snd (replace_events st evs)) (len cs) (len (rs_names st)) = true /\
+  filter live (ta (rsegs_of_events (snd (replace_events st evs)) cs (rs_names st)))
+  = filter live (ta (rsegs_of_events evs cs cn)).
+Proof.
+  induction evs as [|e evs IH]; intros st cs cn HI Hd.
+  - cbn [replace_events fst snd tabs]. split; [apply HI|]. repeat split; reflexivity.
+  - cbn [replace_events]. pose proof (replace_event_nil_attr st e evs cs cn HI Hd) as [A1 [A2 [A3 [A4 A5]]]].
+    destruct (replace_event st e) as [st1 o1]. cbn [fst snd] in *.
+    pose proof (IH st1 _ _ A1 A2) as [B1 [B2 [B3 B4]]].
+    destruct (replace_events st1 evs) as [st2 o2]. cbn [fst snd] in *.
+    split; [exact B1|]. split; [|split].
+    + rewrite tabs_app, A3. cbn [fst snd]. rewrite B2, (tabs_cons e evs). reflexivity.
+    + apply dense_app_true; [exact A4|]. rewrite A3. cbn [fst snd]. exact B3.
+    + rewrite rsegs_app, A3. cbn [fst snd]. rewrite ta_app, filter_app, A5, B4.
+      rewrite (rsegs_cons e evs), ta_app, filter_app. reflexivity.
+Qed.
+
+Theorem replace_stream_nil_ta (ievs : list event) (gi : N * N) :
+  dense ievs 0 0 = true ->
+  filter live (ta (rsegs_of_events (fst (replace_stream [] ievs gi)) [] []))
+  = filter live (ta (rsegs_of_events ievs [] [])) /\
+  dense (fst (replace_stream [] ievs gi)) 0 0 = true.
+Proof.
+  intros Hd. unfold replace_stream.
+  assert (HI : pinv (replace_init []) []) by (constructor; [reflexivity|reflexivity|apply ren_ok_nil]).
+  pose proof (replace_events_nil_attr ievs (replace_init []) [] [] HI Hd) as [A1 [_ [A3 A4]]].
+  destruct (replace_events (replace_init []) ievs) as [st evs]. cbn [fst snd] in *.
+  rewrite A1. cbn [map concat]. change (split_lines []) with (@nil text). cbn [emit_remainder fst].
+  rewrite app_nil_r. split; [exact A4|exact A3].
+Qed.
+
+(* the attribution of every output byte is unchanged, with and without columns *)
+Theorem replace_stream_nil_attr (ievs : list event) (gi : N * N) (c : bool) :
+  dense ievs 0 0 = true ->
+  attr_of_stream (fst (replace_stream [] ievs gi)) c = attr_of_stream ievs c.
+Proof.
+  intros Hd. apply ta_live_attr_of_stream. apply (replace_stream_nil_ta ievs gi Hd).
+Qed.
+
+Theorem replace_nil_stream_attr (st : store) (a : src) (cols c : bool) :
+  dense (fst (fst (stream st a (mkOpts cols false)))) 0 0 = true ->
+  attr_of_stream (fst (fst (stream st (SReplace a []) (mkOpts cols false)))) c
+  = attr_of_stream (fst (fst (stream st a (mkOpts cols false)))) c /\
+  dense (fst (fst (stream st (SReplace a []) (mkOpts cols false)))) 0 0 = true.
+Proof.
+  intros Hd. rewrite replace_nil_stream_eq. cbn [fst snd columns].
+  split; [apply replace_stream_nil_attr; exact Hd|apply replace_stream_nil_ta; exact Hd].
+Qed.
+
+(* ------------------------------------------------------------------ *)
+(* ConcatSource over its children's streams                            *)
+(* ------------------------------------------------------------------ *)
+Definition evs_of (r : list event * (N * N) * store) : list event := fst (fst r).
+Definition tas (evs : list event) : list tattr := ta (rsegs_of_events evs [] []).
+
+Lemma concat_kids_ta st cs cols : length cs <> 1%nat ->
+  Forall (fun k => dense (fst k) 0 0 = true) (fst (kid_streams st cs (mkOpts cols false))) ->
+  tas (evs_of (stream st (SConcat cs) (mkOpts cols false)))
+  = flat_map (fun k => tas (fst k)) (fst (kid_streams st cs (mkOpts cols false))) /\
+  dense (evs_of (stream st (SConcat cs) (mkOpts cols false))) 0 0 = true /\
+  snd (stream st (SConcat cs) (mkOpts cols false)) = snd (kid_streams st cs (mkOpts cols false)).
+Proof.
+  intros Hl Hd. rewrite (stream_concat_fold st cs _ Hl). unfold evs_of, tas. cbn [fst snd final_source].
+  split; [apply concat_fold_ta; exact Hd|]. split; [apply concat_fold_dense; exact Hd|reflexivity].
+Qed.
+
+Lemma tas_attr a b c : tas a = tas b -> attr_of_stream a c = attr_of_stream b c.
+Proof. apply ta_attr_of_stream. Qed.
+
+Lemma tas_texts a b : tas a = tas b -> chunk_texts a = chunk_texts b.
+Proof. unfold tas. intros H. rewrite <- (ta_texts a [] []), <- (ta_texts b [] []), H. reflexivity. Qed.
+
+(* ------------------------------------------------------------------ *)
+(* (e) boxed nesting                                                   *)
+(* ------------------------------------------------------------------ *)
+Theorem concat_nest_right_ta (st : store) (a b c : src) (cols : bool) :
+  Forall (fun k => dense (fst k) 0 0 = true) (fst (kid_streams st [a; b; c] (mkOpts cols false))) ->
+  tas (evs_of (stream st (SConcat [a; SConcat [b; c]]) (mkOpts cols false)))
+  = tas (evs_of (stream st (SConcat [a; b; c]) (mkOpts cols false))) /\
+  snd (stream st (SConcat [a; SConcat [b; c]]) (mkOpts cols false))
+  = snd (stream st (SConcat [a; b; c]) (mkOpts cols false)).
+Proof.
+  intros Hd.
+  destruct (concat_kids_ta st [a; b; c] cols) as [R1 [_ R3]]; [discriminate|exact Hd|].
+  rewrite R1, R3. clear R1 R3.
+  assert (Hd2 : Forall (fun k => dense (fst k) 0 0 = true)
+                       (fst (kid_streams st [a; SConcat [b; c]] (mkOpts cols false))) /\
+                flat_map (fun k => tas (fst k)) (fst (kid_streams st [a; SConcat [b; c]] (mkOpts cols false)))
+                = flat_map (fun k => tas (fst k)) (fst (kid_streams st [a; b; c] (mkOpts cols false))) /\
+                snd (kid_streams st [a; SConcat [b; c]] (mkOpts cols false))
+                = snd (kid_streams st [a; b; c] (mkOpts cols false))).
+  { cbn [kid_streams] in *. destruct (stream st a (mkOpts cols false)) as [[ea ga] st1].
+    destruct (concat_kids_ta st1 [b; c] cols) as [I1 [I2 I3]]; [discriminate| |].
+    { cbn [kid_streams]. destruct (stream st1 b (mkOpts cols false)) as [[eb gb] st2].
+      destruct (stream st2 c (mkOpts cols false)) as [[ec gc] st3]. cbn [fst snd] in *.
+      inversion Hd. assumption. }
+    unfold evs_of in *.
+    destruct (stream st1 (SConcat [b; c]) (mkOpts cols false)) as [[ebc gbc] st3'] eqn:Ebc.
+    cbn [fst snd kid_streams] in *.
+    destruct (stream st1 b (mkOpts cols false)) as [[eb gb] st2].
+    destruct (stream st2 c (mkOpts cols false)) as [[ec gc] st3]. cbn [fst snd flat_map] in *.
+    inversion Hd as [|? ? Ha Hbc]. subst.
+    split; [constructor; [exact Ha|constructor; [exact I2|constructor]]|].
+    split; [rewrite I1; rewrite !app_nil_r; reflexivity|reflexivity]. }
+  destruct Hd2 as [D1 [D2 D3]].
+  destruct (concat_kids_ta st [a; SConcat [b; c]] cols) as [L1 [_ L3]]; [discriminate|exact D1|].
+  rewrite L1, L3. split; assumption.
+Qed.
+
+Theorem concat_nest_left_ta (st : store) (a b c : src) (cols : bool) :
+  Forall (fun k => dense (fst k) 0 0 = true) (fst (kid_streams st [a; b; c] (mkOpts cols false))) ->
+  tas (evs_of (stream st (SConcat [SConcat [a; b]; c]) (mkOpts cols false)))
+  = tas (evs_of (stream st (SConcat [a; b; c]) (mkOpts cols false))) /\
+  snd (stream st (SConcat [SConcat [a; b]; c]) (mkOpts cols false))
+  = snd (stream st (SConcat [a; b; c]) (mkOpts cols false)).
+Proof.
+  intros Hd.
+  destruct (concat_kids_ta st [a; b; c] cols) as [R1 [_ R3]]; [discriminate|exact Hd|].
+  rewrite R1, R3. clear R1 R3.
+  assert (Hd2 : Forall (fun k => dense (fst k) 0 0 = true)
+                       (fst (kid_streams st [SConcat [a; b]; c] (mkOpts cols false))) /\
+                flat_map (fun k => tas (fst k)) (fst (kid_streams st [SConcat [a; b]; c] (mkOpts cols false)))
+                = flat_map (fun k => tas (fst k)) (fst (kid_streams st [a; b; c] (mkOpts cols false))) /\
+                snd (kid_streams st [SConcat [a; b]; c] (mkOpts cols false))
+                = snd (kid_streams st [a; b; c] (mkOpts cols false))).
+  { destruct (concat_kids_ta st [a; b] cols) as [I1 [I2 I3]]; [discriminate| |].
+    { cbn [kid_streams] in *. destruct (stream st a (mkOpts cols false)) as [[ea ga] st1].
+      destruct (stream st1 b (mkOpts cols false)) as [[eb gb] st2].
+      destruct (stream st2 c (mkOpts cols false)) as [[ec gc] st3]. cbn [fst snd] in *.
+      inversion Hd as [|? ? Ha Hbc]. inversion Hbc as [|? ? Hb Hc]. subst.
+      constructor; [exact Ha|constructor; [exact Hb|constructor]]. }
+    unfold evs_of in *. cbn [kid_streams] in *.
+    destruct (stream st (SConcat [a; b]) (mkOpts cols false)) as [[eab gab] st2'] eqn:Eab.
+    destruct (stream st a (mkOpts cols false)) as [[ea ga] st1].
+    destruct (stream st1 b (mkOpts cols false)) as [[eb gb] st2].
+    cbn [fst snd] in *. subst st2'.
+    destruct (stream st2 c (mkOpts cols false)) as [[ec gc] st3]. cbn [fst snd flat_map] in *.
+    inversion Hd as [|? ? Ha Hbc]. inversion Hbc as [|? ? Hb Hc]. subst.
+    split; [constructor; [exact I2|exact Hc]|].
+    split; [rewrite I1; rewrite !app_nil_r, <- app_assoc; reflexivity|reflexivity]. }
+  destruct Hd2 as [D1 [D2 D3]].
+  destruct (concat_kids_ta st [SConcat [a; b]; c] cols) as [L1 [_ L3]]; [discriminate|exact D1|].
+  rewrite L1, L3. split; assumption.
+Qed.
+
+(* as asked: per-byte attribution and chunk texts (hence the reassembled text) coincide *)
+Theorem concat_nest_right (st : store) (a b c : src) (cols cl : bool) :
+  Forall (fun k => dense (fst k) 0 0 = true) (fst (kid_streams st [a; b; c] (mkOpts cols false))) ->
+  attr_of_stream (evs_of (stream st (SConcat [a; SConcat [b; c]]) (mkOpts cols false))) cl
+  = attr_of_stream (evs_of (stream st (SConcat [a; b; c]) (mkOpts cols false))) cl /\
+  chunk_texts (evs_of (stream st (SConcat [a; SConcat [b; c]]) (mkOpts cols false)))
+  = chunk_texts (evs_of (stream st (SConcat [a; b; c]) (mkOpts cols false))) /\
+  (forall t, reassembles (evs_of (stream st (SConcat [a; SConcat [b; c]]) (mkOpts cols false))) t
+             = reassembles (evs_of (stream st (SConcat [a; b; c]) (mkOpts cols false))) t).
+Proof.
+  intros Hd. destruct (concat_nest_right_ta st a b c cols Hd) as [A _].
+  split; [apply tas_attr; exact A|]. pose proof (tas_texts _ _ A) as T. split; [exact T|].
+  intros t. unfold reassembles. rewrite T. reflexivity.
+Qed.
+
+Theorem concat_nest_left (st : store) (a b c : src) (cols cl : bool) :
+  Forall (fun k => dense (fst k) 0 0 = true) (fst (kid_streams st [a; b; c] (mkOpts cols false))) ->
+  attr_of_stream (evs_of (stream st (SConcat [SConcat [a; b]; c]) (mkOpts cols false))) cl
+  = attr_of_stream (evs_of (stream st (SConcat [a; b; c]) (mkOpts cols false))) cl /\
+  chunk_texts (evs_of (stream st (SConcat [SConcat [a; b]; c]) (mkOpts cols false)))
+  = chunk_texts (evs_of (stream st (SConcat [a; b; c]) (mkOpts cols false))) /\
+  (forall t, reassembles (evs_of (stream st (SConcat [SConcat [a; b]; c]) (mkOpts cols false))) t
+             = reassembles (evs_of (stream st (SConcat [a; b; c]) (mkOpts cols false))) t).
+Proof.
+  intros Hd. destruct (concat_nest_left_ta st a b c cols Hd) as [A _].
+  split; [apply tas_attr; exact A|]. pose proof (tas_texts _ _ A) as T. split; [exact T|].
+  intros t. unfold reassembles. rewrite T. reflexivity.
+Qed.
+
+(* ------------------------------------------------------------------ *)
+(* (f) empty neighbours                                                *)
+(* ------------------------------------------------------------------ *)
+Definition empty_leaf (s : src) : bool :=
+  match s with
+  | SRaw _ [] | SRawString [] | SRawBuffer [] | SOriginal [] _ | SConcat [] => true
+  | _ => false
+  end.
+
+Lemma empty_leaf_stream s st cols : empty_leaf s = true ->
+  tas (evs_of (stream st s (mkOpts cols false))) = [] /\
+  dense (evs_of (stream st s (mkOpts cols false))) 0 0 = true /\
+  snd (stream st s (mkOpts cols false)) = st /\
+  source s = [].
+Proof.
+  destruct s as [b v|v|v|v n|v n m og i r|cs|i rs|id i]; cbn [empty_leaf]; try discriminate.
+  - destruct v; [|discriminate]. intros _. destruct b; repeat split; reflexivity.
+  - destruct v; [|discriminate]. intros _. repeat split; reflexivity.
+  - destruct v; [|discriminate]. intros _. repeat split; reflexivity.
+  - destruct v; [|discriminate]. intros _. destruct cols; repeat split; reflexivity.
+  - destruct cs; [|discriminate]. intros _. repeat split; reflexivity.
+Qed.
+
+Theorem concat_empty_neighbours_ta (st : store) (e a e' : src) (cols : bool) :
+  empty_leaf e = true -> empty_leaf e' = true ->
+  dense (evs_of (stream st a (mkOpts cols false))) 0 0 = true ->
+  tas (evs_of (stream st (SConcat [e; a; e']) (mkOpts cols false)))
+  = tas (evs_of (stream st a (mkOpts cols false))) /\
+  snd (stream st (SConcat [e; a; e']) (mkOpts cols false)) = snd (stream st a (mkOpts cols false)).
+Proof.
+  intros He He' Hd.
+  destruct (empty_leaf_stream e st cols He) as [E1 [E2 [E3 _]]].
+  assert (K : Forall (fun k => dense (fst k) 0 0 = true) (fst (kid_streams st [e; a; e'] (mkOpts cols false))) /\
+              flat_map (fun k => tas (fst k)) (fst (kid_streams st [e; a; e'] (mkOpts cols false)))
+              = tas (evs_of (stream st a (mkOpts cols false))) /\
+              snd (kid_streams st [e; a; e'] (mkOpts cols false)) = snd (stream st a (mkOpts cols false))).
+  { unfold evs_of in *. cbn [kid_streams].
+    destruct (stream st e (mkOpts cols false)) as [[ee ge] st1]. cbn [fst snd] in *. subst st1.
+    destruct (stream st a (mkOpts cols false)) as [[ea ga] st2]. cbn [fst snd] in *.
+    destruct (empty_leaf_stream e' st2 cols He') as [F1 [F2 [F3 _]]]. unfold evs_of in *.
+    destruct (stream st2 e' (mkOpts cols false)) as [[ee' ge'] st3]. cbn [fst snd flat_map] in *.
+    split; [constructor; [exact E2|constructor; [exact Hd|constructor; [exact F2|constructor]]]|].
+    split; [rewrite E1, F1; cbn [app]; rewrite !app_nil_r; reflexivity|exact F3]. }
+  destruct K as [K1 [K2 K3]].
+  destruct (concat_kids_ta st [e; a; e'] cols) as [L1 [_ L3]]; [discriminate|exact K1|].
+  rewrite L1, L3. split; assumption.
+Qed.
+
+Theorem concat_empty_neighbours (st : store) (e a e' : src) (cols cl : bool) :
+  empty_leaf e = true -> empty_leaf e' = true ->
+  dense (evs_of (stream st a (mkOpts cols false))) 0 0 = true ->
+  attr_of_stream (evs_of (stream st (SConcat [e; a; e']) (mkOpts cols false))) cl
+  = attr_of_stream (evs_of (stream st a (mkOpts cols false))) cl /\
+  chunk_texts (evs_of (stream st (SConcat [e; a; e']) (mkOpts cols false)))
+  = chunk_texts (evs_of (stream st a (mkOpts cols false))) /\
+  source (SConcat [e; a; e']) = source a.
+Proof.
+  intros He He' Hd. destruct (concat_empty_neighbours_ta st e a e' cols He He' Hd) as [A _].
+  split; [apply tas_attr; exact A|]. split; [apply tas_texts; exact A|].
+  destruct (empty_leaf_stream e st cols He) as [_ [_ [_ S1]]].
+  destruct (empty_leaf_stream e' st cols He') as [_ [_ [_ S2]]].
+  cbn [source map concat]. rewrite S1, S2. cbn [app]. rewrite !app_nil_r. reflexivity.
+Qed.
+
+(* ------------------------------------------------------------------ *)
+(* the side condition `dense` holds of the model's own trees (text mode): *)
+(* raw leaves, OriginalSource, SourceMapSource without inner map,        *)
+(* ConcatSource, ReplaceSource without replacements                      *)
+(* ------------------------------------------------------------------ *)
+Fixpoint dcnt (evs : list event) (ns nn : N) : N * N :=
+  match evs with
+  | [] => (ns, nn)
+  | ESource _ _ _ :: evs' => dcnt evs' (ns + 1) nn
+  | EName _ _ :: evs' => dcnt evs' ns (nn + 1)
+  | EChunk _ _ :: evs' => dcnt evs' ns nn
+  end.
+
+Lemma dense_app_n a : forall b ns nn,
+  dense (a ++ b) ns nn = dense a ns nn && dense b (fst (dcnt a ns nn)) (snd (dcnt a ns nn)).
+Proof.
+  induction a as [|e a IH]; intros b ns nn; [reflexivity|].
+  destruct e as [t m|i n c|i n]; cbn [app dense dcnt]; rewrite IH, andb_assoc; reflexivity.
+Qed.
+
+Lemma chunks_dense ns nn evs : Forall (chunk_ok ns nn) evs -> dense evs ns nn = true /\ dcnt evs ns nn = (ns, nn).
+Proof.
+  induction 1 as [|e evs He _ IH]; [split; reflexivity|].
+  destruct e as [t m|i n c|i n]; cbn [chunk_ok] in He; try contradiction.
+  destruct IH as [I1 I2]. split; cbn [dense dcnt]; [|exact I2].
+  rewrite I1, andb_true_r. destruct (m_orig m) as [o|]; [|reflexivity].
+  cbn [orig_ok] in He. destruct He as [A B]. apply andb_true_iff. split; [apply N.ltb_lt; exact A|].
+  destruct (o_name o); [apply N.ltb_lt; exact B|reflexivity].
+Qed.
+
+Lemma announce_sources_dense m srcs : forall i nn,
+  dense (announce_sources m srcs i) i nn = true /\ dcnt (announce_sources m srcs i) i nn = (i + len srcs, nn).
+Proof.
+  induction srcs as [|s srcs IH]; intros i nn.
+  - cbn [announce_sources dense dcnt]. rewrite slen_nil, N.add_0_r. split; reflexivity.
+  - cbn [announce_sources dense dcnt]. destruct (IH (i + 1) nn) as [A B]. rewrite N.eqb_refl, A, B, slen_cons.
+    split; [reflexivity|]. f_equal. lia.
+Qed.
+
+Lemma announce_names_dense names : forall i ns,
+  dense (announce_names names i) ns i = true /\ dcnt (announce_names names i) ns i = (ns, i + len names).
+Proof.
+  induction names as [|s names IH]; intros i ns.
+  - cbn [announce_names dense dcnt]. rewrite slen_nil, N.add_0_r. split; reflexivity.
+  - cbn [announce_names dense dcnt]. destruct (IH (i + 1) ns) as [A B]. rewrite N.eqb_refl, A, B, slen_cons.
+    split; [reflexivity|]. f_equal. lia.
+Qed.
+
+Lemma announced_dense m evs :
+  Forall (chunk_ok (len (sm_sources m)) (len (sm_names m))) evs ->
+  dense (announce_sources m (sm_sources m) 0 ++ announce_names (sm_names m) 0 ++ evs) 0 0 = true.
+Proof.
+  intros H. destruct (announce_sources_dense m (sm_sources m) 0 0) as [A1 A2].
+  destruct (announce_names_dense (sm_names m) 0 (len (sm_sources m))) as [B1 B2].
+  rewrite dense_app_n, A1, A2. cbn [fst snd andb N.add].
+  rewrite dense_app_n, B1, B2. cbn [fst snd andb N.add]. apply chunks_dense. exact H.
+Qed.
+
+Lemma announced_sources_dense m evs :
+  Forall (chunk_ok (len (sm_sources m)) 0) evs ->
+  dense (announce_sources m (sm_sources m) 0 ++ evs) 0 0 = true.
+Proof.
+  intros H. destruct (announce_sources_dense m (sm_sources m) 0 0) as [A1 A2].
+  rewrite dense_app_n, A1, A2. cbn [fst snd andb N.add]. apply chunks_dense. exact H.
+Qed.
+
+Lemma raw_stream_dense t : dense (fst (raw_stream t false)) 0 0 = true.
+Proof. unfold raw_stream. cbn [fst]. apply chunks_dense. apply raw_chunks_ok. Qed.
+
+Lemma original_stream_dense v name cols : dense (fst (original_stream v name (mkOpts cols false))) 0 0 = true.
+Proof.
+  unfold original_stream. cbn [columns final_source]. destruct cols.
+  - pose proof (original_tokens_ok false (potential_tokens v) 1 0) as H.
+    destruct (original_tokens (potential_tokens v) false 1 0) as [evs gi]. cbn [fst] in *.
+    cbn [dense]. change (0 =? 0) with true. cbn [andb N.add]. apply chunks_dense. exact H.
+  - cbn [fst dense]. change (0 =? 0) with true. cbn [andb N.add]. apply chunks_dense.
+    apply original_line_chunks_ok.
+Qed.
+
+Lemma sm_stream_dense t m cols : map_consistent t m = true ->
+  dense (fst (sm_stream t m (mkOpts cols false))) 0 0 = true.
+Proof.
+  intros Hc. pose proof (map_consistent_segs t m Hc) as Hs.
+  set (ns := len (sm_sources m)) in *. set (nn := len (sm_names m)) in *.
+  unfold sm_stream. cbn [columns final_source]. destruct cols.
+  - unfold sm_stream_full. destruct (is_nil (split_lines t)); [reflexivity|].
+    destruct (lines_end_info (split_lines t)) as [fl fc].
+    pose proof (sm_full_loop_ok ns nn (split_lines t) fl fc _ Hs (mkF 1 0 false None) I) as [A B].
+    destruct (sm_full_loop (split_lines t) fl fc (mkF 1 0 false None) (decode_mappings (sm_mappings m)))
+      as [st evs]. cbn [fst snd] in A, B.
+    pose proof (sm_full_step_ok ns nn (split_lines t) fl fc st (unmapped fl fc) A I) as [_ D].
+    destruct (sm_full_step (split_lines t) fl fc st (unmapped fl fc)) as [st' evs']. cbn [fst snd] in *.
+    apply announced_dense. apply Forall_app. split; assumption.
+  - unfold sm_stream_lines_full. destruct (is_nil (split_lines t)); [reflexivity|].
+    pose proof (sm_lines_full_loop_ok ns nn (split_lines t) _ Hs 1) as A.
+    destruct (sm_lines_full_loop (split_lines t) (decode_mappings (sm_mappings m)) 1) as [cur evs].
+    cbn [fst snd] in *. apply announced_sources_dense. apply Forall_app. split; [exact A|apply whole_lines_ok].
+Qed.
+
+Fixpoint dshape (s : src) : bool :=
+  match s with
+  | SRaw _ _ | SRawString _ | SRawBuffer _ | SOriginal _ _ => true
+  | SMapped v _ m _ None _ => map_consistent v m
+  | SMapped _ _ _ _ (Some _) _ => false
+  | SConcat cs => forallb dshape cs
+  | SReplace inner rs => is_nil rs && dshape inner
+  | SCached _ _ => false
+  end.
+
+Definition dense_all (s : src) : Prop :=
+  forall st cols, dense (evs_of (stream st s (mkOpts cols false))) 0 0 = true.
+
+Lemma kid_streams_dense cols cs : Forall dense_all cs -> forall st,
+  Forall (fun k => dense (fst k) 0 0 = true) (fst (kid_streams st cs (mkOpts cols false))).
+Proof.
+  induction 1 as [|c cs Hc _ IH]; intros st; [constructor|].
+  cbn [kid_streams]. specialize (Hc st cols). unfold evs_of in Hc.
+  destruct (stream st c (mkOpts cols false)) as [[evs gi] st1]. specialize (IH st1).
+  destruct (kid_streams st1 cs (mkOpts cols false)) as [ks st2]. cbn [fst snd] in *.
+  constructor; assumption.
+Qed.
+
+Theorem dense_tree : forall s, dshape s = true -> dense_all s.
+Proof.
+  apply (src_ind' (fun s => dshape s = true -> dense_all s)).
+  - intros b v _ st cols. unfold evs_of. cbn [stream fst final_source]. apply raw_stream_dense.
+  - intros v _ st cols. unfold evs_of. cbn [stream fst final_source]. apply raw_stream_dense.
+  - intros v _ st cols. unfold evs_of. cbn [stream fst final_source]. apply raw_stream_dense.
+  - intros v n _ st cols. unfold evs_of. cbn [stream fst]. apply original_stream_dense.
+  - intros v n m og i r Hsh st cols. cbn [dshape] in Hsh. destruct i as [im|]; [discriminate|].
+    unfold evs_of. cbn [stream fst]. apply sm_stream_dense. exact Hsh.
+  - intros cs IH Hsh st cols. cbn [dshape] in Hsh.
+    assert (Hall : Forall dense_all cs).
+    { rewrite Forall_forall in *. rewrite forallb_forall in Hsh. intros c Hc. apply IH; [exact Hc|apply Hsh; exact Hc]. }
+    destruct (Nat.eq_dec (length cs) 1) as [E|E].
+    + destruct cs as [|c [|c2 r]]; try discriminate. inversion Hall as [|? ? Hc _]. apply Hc.
+    + apply (concat_kids_ta st cs cols E). apply kid_streams_dense. exact Hall.
+  - intros i rs IH Hsh st cols. cbn [dshape] in Hsh. apply andb_true_iff in Hsh. destruct Hsh as [Hn Hsh].
+    destruct rs; [|discriminate]. apply (replace_nil_stream_attr st i cols true). apply (IH Hsh).
+  - intros id i _ Hsh. discriminate.
+Qed.
+
+(* the laws on these trees, without side conditions on streams *)
+Corollary replace_nil_stream_attr_tree (st : store) (a : src) (cols c : bool) : dshape a = true ->
+  attr_of_stream (evs_of (stream st (SReplace a []) (mkOpts cols false))) c
+  = attr_of_stream (evs_of (stream st a (mkOpts cols false))) c.
+Proof. intros H. apply (replace_nil_stream_attr st a cols c). apply (dense_tree a H). Qed.
+
+Corollary concat_nest_tree (st : store) (a b c : src) (cols cl : bool) :
+  dshape a = true -> dshape b = true -> dshape c = true ->
+  attr_of_stream (evs_of (stream st (SConcat [a; SConcat [b; c]]) (mkOpts cols false))) cl
+  = attr_of_stream (evs_of (stream st (SConcat [a; b; c]) (mkOpts cols false))) cl /\
+  attr_of_stream (evs_of (stream st (SConcat [SConcat [a; b]; c]) (mkOpts cols false))) cl
+  = attr_of_stream (evs_of (stream st (SConcat [a; b; c]) (mkOpts cols false))) cl /\
+  chunk_texts (evs_of (stream st (SConcat [a; SConcat [b; c]]) (mkOpts cols false)))
+  = chunk_texts (evs_of (stream st (SConcat [a; b; c]) (mkOpts cols false))) /\
+  chunk_texts (evs_of (stream st (SConcat [SConcat [a; b]; c]) (mkOpts cols false)))
+  = chunk_texts (evs_of (stream st (SConcat [a; b; c]) (mkOpts cols false))).
+Proof.
+  intros Ha Hb Hc.
+  assert (Hd : Forall (fun k => dense (fst k) 0 0 = true) (fst (kid_streams st [a; b; c] (mkOpts cols false)))).
+  { apply kid_streams_dense. repeat constructor; apply dense_tree; assumption. }
+  destruct (concat_nest_right st a b c cols cl Hd) as [A1 [A2 _]].
+  destruct (concat_nest_left st a b c cols cl Hd) as [B1 [B2 _]].
+  repeat split; assumption.
+Qed.
+
+Corollary concat_empty_neighbours_tree (st : store) (e a e' : src) (cols cl : bool) :
+  empty_leaf e = true -> empty_leaf e' = true -> dshape a = true ->
+  attr_of_stream (evs_of (stream st (SConcat [e; a; e']) (mkOpts cols false))) cl
+  = attr_of_stream (evs_of (stream st a (mkOpts cols false))) cl /\
+  chunk_texts (evs_of (stream st (SConcat [e; a; e']) (mkOpts cols false)))
+  = chunk_texts (evs_of (stream st a (mkOpts cols false))) /\
+  source (SConcat [e; a; e']) = source a.
+Proof. intros He He' Ha. apply concat_empty_neighbours; [exact He|exact He'|apply (dense_tree a Ha)]. Qed.
+
 Print Assumptions concat_new_typed_flat.
 Print Assumptions concat_single_stream.
 Print Assumptions replace_nil_stream_texts.
 Print Assumptions cached_cold_stream.
 Print Assumptions cached_cold_map.
 Print Assumptions cached_cold_map_tree.
+Print Assumptions replace_nil_stream_attr.
+Print Assumptions concat_nest_right.
+Print Assumptions concat_nest_left.
+Print Assumptions concat_empty_neighbours.
+Print Assumptions dense_tree.
+Print Assumptions concat_nest_tree.
+Print Assumptions concat_empty_neighbours_tree.
